@@ -104,7 +104,9 @@ impl RlteCatalog {
             // Mixed: estimate fraction <= t from ladder checkpoints
             let pos = nums.partition_point(|&x| x <= t); // count of <= t
             let est = ((pos as f64 / nums.len() as f64) * zone_size as f64) as usize;
-            let est = est.min(zone_size);
+            // min <= t: at least one row qualifies, even when the zone holds more rows than
+            // zone_size (compacted zones) and the fraction rounds down to zero
+            let est = est.min(zone_size).max(1);
             (est, est)
         } else {
             // ORDER BY DESC — we want values >= t to surface first
@@ -120,7 +122,8 @@ impl RlteCatalog {
             let first_ge = nums.partition_point(|&x| x < t);
             let cnt = nums.len().saturating_sub(first_ge);
             let est = ((cnt as f64 / nums.len() as f64) * zone_size as f64) as usize;
-            let est = est.min(zone_size);
+            // max >= t: at least one row qualifies (see above)
+            let est = est.min(zone_size).max(1);
             (est, est)
         }
     }
